@@ -27,7 +27,7 @@ ASSUMPTIONS = [
     "object key columns hold mutually comparable values only; strings containing U+0000 are not generated",
     "strings starting with U+FFFF (the library's in-band sentinel for missing strings) form a tagged class",
 ]
-REACH = {"quick": {"nrow:0": 50, "key:lstr": 100, "key:ustr": 100, "key:str": 300, "multi-key-mixed-dir": 200, "key-all-missing": 50, "desc-nonnumeric": 300, "tag:big": 10, "after-inplace-edit": 500, "grouped-receiver": 300, "key:oint": 100}}
+REACH = {"quick": {"nrow:0": 50, "key:lstr": 100, "key:ustr": 100, "key:str": 300, "multi-key-mixed-dir": 200, "key-all-missing": 50, "desc-nonnumeric": 300, "tag:big": 5, "after-inplace-edit": 500, "grouped-receiver": 300, "key:oint": 100}}
 
 KEY_KINDS = ["bool", "int", "float", "str", "str", "lstr", "ustr", "date", "datetime", "obool", "ostr", "timedelta", "oint", "uint64", "int_be", "float_be", "datetime_be", "date_be"]
 
